@@ -134,7 +134,7 @@ def parse_M(tok):
     return rows, nrg, ncol, rgs, leaves
 
 
-def events_of(cid, ops, toks, with_file=True):
+def events_of(cid, ops, toks, with_file=True, layout=False):
     """Translate the harness output tokens of one history into trace events (pure re-formatting)."""
     cols = ops[0]["cols"]
     ev = []
@@ -164,7 +164,7 @@ def events_of(cid, ops, toks, with_file=True):
             if val not in ("absent", "readerr"):
                 filebytes = bytes.fromhex(val) if val != "-" else b""
                 if with_file:
-                    ev.append({"id": cid, "e": "File", "bytes": list(filebytes)})
+                    ev.append({"id": cid, "e": "File", "bytes": list(filebytes), "layout": layout})
         elif key == "O":
             cur_open = {"id": cid, "e": "Open", "ok": val == "ok", "rows": -1, "rgs": [], "leaves": [], "mode": ""}
             if val != "ok":
@@ -236,7 +236,9 @@ def run_histories(chk, histories, configs, modes=("f",), with_file=True, determi
         # second run in processes with a perturbed heap; only the file bytes are compared
         def per_chunk2(i, ln):
             return ln.replace("@PATH@", os.path.join(fdir, "g%d.parquet" % i))
-        wl = [history_line(cid, meta[cid][0], meta[cid][1], meta[cid][2], "@PATH@", read=False) for cid in meta]
+        # ... and, inside each process, after a different predecessor than in the first run (reversed order): state
+        # kept between writer instances (static / thread-local tables, pools) must not leak into the bytes
+        wl = [history_line(cid, meta[cid][0], meta[cid][1], meta[cid][2], "@PATH@", read=False) for cid in reversed(list(meta))]
         res2, _, _ = common.run_harness_parallel(binary, wl, nproc=nproc, leaks=False, line_for_chunk=per_chunk2,
                                                  env={"MALLOC_PERTURB_": "165", "ASAN_OPTIONS": common.ASAN_ENV["ASAN_OPTIONS"] + ":malloc_fill_byte=90:max_malloc_fill_size=4096"})
     execs = []
@@ -245,7 +247,7 @@ def run_histories(chk, histories, configs, modes=("f",), with_file=True, determi
         toks = res.get(cid)
         if toks is None:
             continue
-        evs, fb = events_of(cid, ops, toks, with_file=with_file and codec in SPEC_DECODABLE)
+        evs, fb = events_of(cid, ops, toks, with_file=with_file, layout=codec not in SPEC_DECODABLE)
         files[cid] = fb
         if determinism and cid in res2:
             f2 = [t for t in res2[cid] if t.startswith("F=")]
